@@ -486,6 +486,9 @@ func (rd *retryDialer) Dial(network, addr string) (net.Conn, error) {
 	return nil, err
 }
 func (rd *retryDialer) String() string { return "retryDialer" }
+func newRetryDialer(cfg *sarama.Config) *retryDialer {
+	return &retryDialer{d: net.Dialer{Timeout: cfg.Net.DialTimeout, KeepAlive: cfg.Net.KeepAlive}}
+}
 
 func tryBroker() (mb *sarama.MockBroker, err error) {
 	defer func() {
@@ -520,7 +523,7 @@ func (e *env) client(c caseT) sarama.Client {
 	cfg := sarama.NewConfig()
 	cfg.Version = sarama.V0_9_0_0
 	cfg.Net.Proxy.Enable = true
-	cfg.Net.Proxy.Dialer = &retryDialer{d: net.Dialer{Timeout: cfg.Net.DialTimeout, KeepAlive: cfg.Net.KeepAlive}}
+	cfg.Net.Proxy.Dialer = newRetryDialer(cfg)
 	cfg.Metadata.Retry.Max = 0
 	cfg.Metadata.Retry.Backoff = 0
 	cfg.Metadata.RefreshFrequency = 0
@@ -631,6 +634,11 @@ func runCase(c caseT) (obs []hopObs, mon *cf.Monitor) {
 			}
 			pom, err := om.ManagePartition(pidTopic[h.P], pidPart[h.P])
 			if err == nil {
+				// monitor: a partition can be managed again only after its previous handle was released, and a handle is
+				// released only when the store has its latest mark - a new handle must never replace one whose mark is pending
+				if _, seen := r.handles[h.P]; seen && !r.released[h.P] && r.touched[h.P] && r.store[h.P] != r.pend[h.P] {
+					r.fail("manage:pending-mark-discarded", fmt.Sprintf("ManagePartition handed out a new handle for p%d while the previous one (not released) holds the uncommitted mark %+v; the coordinator stores %+v", h.P, r.pend[h.P], r.store[h.P]))
+				}
 				if _, seen := r.handles[h.P]; !seen {
 					r.order = append(r.order, h.P)
 				}
@@ -978,6 +986,7 @@ func main() {
 	nshort := flag.Int("nshort", 500, "number of sampled short sequences (length 3-5 over the small alphabet)")
 	depth := flag.Int("depth", 2, "exhaustive enumeration depth over the small alphabet")
 	shard := flag.Int("shard", 120, "cases per Coq file")
+	nsess := flag.Int("nsess", 40, "number of consumer-group session cases (monitor only)")
 	failCase := flag.Int("failcase", -1, "self-test of the harness: pretend this case cannot be run (reported as HARNESSFAIL)")
 	crashCase := flag.Int("crashcase", -1, "self-test of the harness: die while running this case")
 	flag.Parse()
@@ -1072,9 +1081,10 @@ func main() {
 		emit(randCase(r, 40), "random")
 	}
 	w.Close()
+	ns, nskip := runSessions(*out, *seed, *nsess)
 	theEnv.reset()
 	_ = os.Remove(cur)
-	fmt.Printf("C06CORR cases=%d skipped=%d\n", emitted, skipped)
+	fmt.Printf("C06CORR cases=%d skipped=%d sessions=%d skipped_sessions=%d\n", emitted, skipped, ns, nskip)
 }
 
 type nopLogger struct{}
